@@ -94,7 +94,7 @@ DownloadConstructor::parse_info(const Object& b) {
   // correct.
   m_download->set_complete_hash(b.get_key_string("pieces"));
 
-  if (m_download->complete_hash().size() / 20 < fileList->size_chunks())
+  if (m_download->complete_hash().size() != uint64_t{20} * fileList->size_chunks())
     throw bencode_error("Torrent size and 'info:pieces' length does not match.");
 }
 
